@@ -251,7 +251,7 @@ impl Prop for C14 {
     }
     fn rule(&self) -> String {
         "words built from syllables = {12 cluster shapes: single consonant, hasanta conjuncts of 2-3, ro-fola, zo-fola, র+zo-fola, ro+zo-fola, one-key ক্ষ, reph (new style key first / old style key after the cluster)} \
-         x {no sign, া ী ু ৃ, left-standing ি ে ৈ, two-part ো=ে…া, ৌ=ে…ৌ, ৌ=ে…ৗ} x [chandrabindu], plus independent vowels, punctuation, digit: all words of 1-2 syllables and random words of 3-5 syllables, \
+         x {no sign, া ী ু ৃ, left-standing ি ে ৈ, two-part ো=ে…া, ৌ=ে…ৌ, ৌ=ে…ৗ} x [chandrabindu], plus independent vowels, punctuation, digit: all words of 1-2 syllables (a strided quarter of the 2-syllable words in quick), in thorough a strided eighth of all 3-syllable words, and random words of 3-5 syllables, \
          under the 16 settings of auto-vowel/auto-chandra/traditional/old-reph; typed in typewriter order with the option on and in Unicode order with it off; \
          every pending sign checked for not-shown / ongoing; a strided third of the words repeated with <sign, backspace> inserted before a syllable. \
          distinct_nontrivial = distinct (final text, options) pairs compared."
@@ -306,6 +306,26 @@ impl Prop for C14 {
                                 out.begin_case(|| case_json(bits, &word, Some(at)));
                                 judge(&off, &on, bits, &word, Some(at), out, &mut t);
                             }
+                        }
+                    }
+                }
+            }
+            // thorough: a strided eighth of all 3-syllable words
+            if env.tier == Tier::Thorough {
+                for i in 0..n {
+                    for j in 0..n {
+                        let mine = env.mine(item);
+                        item += 1;
+                        if !mine {
+                            continue;
+                        }
+                        for k in 0..n {
+                            if (i * 131 + j * 31 + k * 7 + bits as usize) % 8 != 0 {
+                                continue;
+                            }
+                            let word: Vec<&Syl> = vec![&syl[i], &syl[j], &syl[k]];
+                            out.begin_case(|| case_json(bits, &word, None));
+                            judge(&off, &on, bits, &word, None, out, &mut t);
                         }
                     }
                 }
